@@ -26,6 +26,8 @@ func c01Alphabet(keys []val.Item, thorough bool) func(m *model.Model) []drv.Op {
 			ks("Put(full)", drv.Op{K: drv.KPut, Item: with(k, "a", val.S("p"), "b", val.N("1"))})
 			ks("Put(shrink)", drv.Op{K: drv.KPut, Item: with(k, "a", val.S("q"))})
 			ks("Put(bare)", drv.Op{K: drv.KPut, Item: k.Clone()})
+			// an item with nested values (sets inside a list and a map): what is read back is what was written
+			ks("Put(nested)", drv.Op{K: drv.KPut, Item: with(k, "a", val.L(val.NS("1", "2"), val.SS("x", "y"), val.S("e"), val.M("ns", val.NS("3"), "l", val.L(val.BS([]byte{1})))))})
 			ks("Del(ALL_OLD)", drv.Op{K: drv.KDel, Key: k, AllOld: true})
 			ks("Upd(SET a)", drv.Op{K: drv.KUpd, Key: k, Upd: rx.U(rx.Set("a", rx.RV(":v"))), Values: map[string]val.V{":v": val.S("u")}})
 			ks("Upd(SET b)", drv.Op{K: drv.KUpd, Key: k, Upd: rx.U(rx.Set("b", rx.RV(":n"))), Values: map[string]val.V{":n": val.N("7")}})
@@ -109,7 +111,7 @@ func C01(run *ev.Run, tier string) map[string]interface{} {
 	})
 	cov := total.Coverage()
 	cov["per_system"] = per
-	cov["alphabet"] = "Get, Put(full|shrinking|bare), Del(ALL_OLD), Upd(SET a | SET b = N 7 | SET b = S 7 | ADD c (c<2) | REMOVE a) and rejected writes (update whose operand is absent, false conditions on Put/Upd/Del; thorough: a syntax error) on every key; schemas H(h:S) and HR(h:S,r:S); both SDK adapters"
+	cov["alphabet"] = "Get, Put(full|shrinking|bare|nested values), Del(ALL_OLD), Upd(SET a | SET b = N 7 | SET b = S 7 | ADD c (c<2) | REMOVE a) and rejected writes (update whose operand is absent, false conditions on Put/Upd/Del; thorough: a syntax error) on every key; schemas H(h:S) and HR(h:S,r:S); both SDK adapters"
 	cov["oracle"] = "reference map key->item in lock-step; after every transition: DescribeTable, GetItem of every key, Scan, Query of every partition in both directions"
 	return cov
 }
